@@ -1081,3 +1081,40 @@ package mail
 //@ func mail.msgWriter.writeMsg (msg)
 //@   ensures[C11:pgp-boundary-cached] mw.usedPGP != "" ==> ((mw.pgpkey in msg.multiPartBoundary) && msg.multiPartBoundary[mw.pgpkey] == mw.usedPGP)
 //@   ensures[C11:pgp-boundary-once] forall k string :: (k == mw.pgpkey && mw.err == nil && msg.boundary == "" && mw.usedPGP != "" && old((k in msg.multiPartBoundary) && msg.multiPartBoundary[k] != "")) ==> mw.usedPGP == old(msg.multiPartBoundary[k])
+
+// C07 (continued): the policy a caller asks for is the policy that is stored - whatever port is configured
+//@ func mail.Client.SetTLSPolicy (policy)
+//@   requires[C07:wf] c != nil
+//@   ensures[C07:policy-stored] c.tlspolicy == policy
+//@ func mail.Client.SetTLSPortPolicy (policy)
+//@   requires[C07:wf] c != nil
+//@   ensures[C07:policy-stored] c.tlspolicy == policy
+//@ func mail.WithTLSPolicy$1 (c) (err)
+//@   requires[C07:wf] c != nil
+//@   ensures[C07:policy-stored] err == nil && c.tlspolicy == policy
+//@ func mail.WithTLSPortPolicy$1 (c) (err)
+//@   requires[C07:wf] c != nil
+//@   ensures[C07:policy-stored] err == nil && c.tlspolicy == policy
+//@ func mail.Client.SetSSL (ssl)
+//@   requires[C07:wf] c != nil
+//@   ensures[C07:ssl-stored] c.useSSL == ssl
+//@ func mail.Client.SetSSLPort (ssl, fallback)
+//@   requires[C07:wf] c != nil
+//@   ensures[C07:ssl-stored] c.useSSL == ssl
+//@ func mail.WithSSL$1 (c) (err)
+//@   requires[C07:wf] c != nil
+//@   ensures[C07:ssl-stored] err == nil && c.useSSL
+//@ func mail.WithSSLPort$1 (c) (err)
+//@   requires[C07:wf] c != nil
+//@   ensures[C07:ssl-stored] err == nil && c.useSSL
+
+// C11 (continued): the scratch buffer in which writeBody collects the (encoded) content starts empty - what is copied
+// to the destination afterwards is what this producer produced, nothing left over from an earlier body
+//@ at mail.msgWriter.writeBody mail.msgWriter.writeBody.writeFunc#1 before assert[C11:scratch-buffer-starts-empty] arg0.sinkacc == 0 && arg0.rpos == 0
+//@ at mail.msgWriter.writeBody mail.msgWriter.writeBody.writeFunc#2 before assert[C11:scratch-buffer-starts-empty] arg0.wtarget.sinkacc == 0 && arg0.wtarget.rpos == 0 && (arg0.enckind == 2 ==> as(arg0.wtarget, "*mail.base64LineBreaker").out.sinkacc == 0)
+
+// C10 (continued): the To / Cc / Bcc addresses handed to the Msg are the canonical rendering (Address.String, which
+// net/mail parses back to the same address) of exactly the addresses that were parsed, in order
+//@ func mail.parseEMLHeaders (mailHeader, msg) (err)
+//@   loop 2 invariant[C10:addresses-as-parsed] 0 <= rangeindex + 1 && len(addrStrings) == rangeindex + 1 && (forall j :: 0 <= j && j < len(addrStrings) ==> addrStrings[j] == addrstr(parsedAddrs[j]))
+//@ at mail.parseEMLHeaders mail.parseEMLHeaders.addrFunc#1 before assert[C10:addresses-as-parsed] len(arg0) == len(parsedAddrs) && (forall j :: 0 <= j && j < len(arg0) ==> arg0[j] == addrstr(parsedAddrs[j]))
